@@ -32,7 +32,7 @@ type c17Case struct {
 	Fault    *sim.Fault `json:"fault,omitempty"`
 	Seed     int64      `json:"seed"`
 	Names    int        `json:"names,omitempty"`    // 2: the info file lists a second device name to fall back to
-	KeyForm  string     `json:"key_form,omitempty"` // PAN-OS: how the keygen reply carries the key ("" plain text, cdata)
+	KeyForm  string     `json:"key_form,omitempty"` // PAN-OS: how the keygen reply carries the key ("" plain text, cdata, key element nested in another element)
 	// drc -u admin on a pseudo terminal, password typed; which streams go to files: none | out | err | both
 	Interactive string `json:"interactive,omitempty"`
 }
@@ -248,6 +248,9 @@ func checkC17(tier, replay string) int {
 				if k.typ == "panos" {
 					// Same key, other XML spelling of the element content.
 					cases = append(cases, &c17Case{Type: k.typ, FrontEnd: k.fe, Compare: k.cmp, Alphabet: al, Seed: rng.Int63(), KeyForm: "cdata"})
+					// An answer that carries the key element where the tool does
+					// not look for it: the login fails, the key stays a secret.
+					cases = append(cases, &c17Case{Type: k.typ, FrontEnd: k.fe, Compare: k.cmp, Alphabet: al, Seed: rng.Int63(), KeyForm: "nested"})
 				}
 				n := steps[i]
 				pos := map[int]bool{}
